@@ -404,6 +404,33 @@ var timeZero = NumStr("-62135596800000000000")
 // (every new element is one of the old ones and every old one is still present) in ascending SequenceId order. Other
 // sort.Interface implementations are not modelled.
 func init() {
+	// sort.Strings: a permutation of the slice. What the model offers is membership (the contract-level function
+	// strIn(row, off, n, k): "k is among the first n elements"), which is what a sweep over collected map keys needs;
+	// the order of the result is not modelled.
+	reg("sort.Strings", func(c *LibCtx, a []*Val) *Val {
+		s := a[0]
+		sf := c.x.P.Specs.SpecFuncs["strIn"]
+		if s.K != VSlice || sf == nil {
+			c.x.note("sort.Strings: not modelled here (needs the contract-level function strIn)")
+			return nil
+		}
+		et := sliceElem(s.Typ)
+		fl := flatten(et)
+		if len(fl) != 1 || fl[0].Sort != SStr {
+			return nil
+		}
+		key, h := c.st.heapArr(et, fl[0], true)
+		oldRow := Select(h, s.T)
+		newRow := Const(freshName("sorted"), oldRow.Sort)
+		k := Bound("k", SStr)
+		env := &SpecEnv{x: c.x, st: c.st, vars: map[string]*Val{}, pkg: sf.Pkg, nbound: 1}
+		app := func(row *Term) *Term {
+			return scalar(c.x.applySpec(env, sf, []*Val{{K: VArr, T: row}, intVal(s.Off, nil), intVal(s.Len, nil), valOfSort(k)}))
+		}
+		c.st.Assume(Forall([]*Term{k}, Eq(app(newRow), app(oldRow)), []*Term{app(newRow)}, []*Term{app(oldRow)}))
+		c.st.setHeap(key, Store(h, s.T, newRow))
+		return nil
+	})
 	reg("sort.Sort", func(c *LibCtx, a []*Val) *Val {
 		iv := a[0]
 		if iv.K != VIface || iv.Tag.K != TNum {
